@@ -52,7 +52,9 @@ PAYLOADS = ["open(%r, 'a').write('x')" % COUNTER,
             "open(%r, 'a').write('x')  # %s" % (COUNTER, "漢字" * 60),
             "open(%r, 'a').write('x')  # %s" % (COUNTER, "é" * 300),
             "open(%r, 'a').write('x')  # café \\ 'quote' \"dq\"" % COUNTER,
-            "[open(%r, 'a').write('x'), 123][1]" % COUNTER]
+            "[open(%r, 'a').write('x'), 123][1]" % COUNTER,
+            # text that also occurs in the model pickle (a storage key / device name): valid Python, runs, writes nothing
+            "0"]
 
 
 def same(a, b):
@@ -128,7 +130,7 @@ for oname, make in OBJECTS:
                 fails.append(dict(case, kind="reload", what=f"torch.load of the injected file raises {type(e).__name__}: {e}"[:200]))
                 continue
             runs = len(open(COUNTER).read()) if os.path.exists(COUNTER) else 0
-            if runs != 1:
+            if runs != 1 and "write" in payload:
                 fails.append(dict(case, kind="payload-runs", what=f"the payload ran {runs} times"))
             if not same(obj, loaded):
                 fails.append(dict(case, kind="model", what="the reloaded model differs from the original"))
@@ -166,7 +168,7 @@ for oname, make in OBJECTS[:3]:
         try:
             torch.load(out, weights_only=False)
             runs = len(open(COUNTER).read()) if os.path.exists(COUNTER) else 0
-            if runs != 1:
+            if runs != 1 and "write" in payload:
                 fails.append(dict(case, what=f"injection #{k + 1} from the same unchanged file: loading runs the payload {runs} times"))
         except Exception as e:  # noqa
             fails.append(dict(case, what=f"torch.load raises {type(e).__name__}: {e}"[:160]))
